@@ -15,9 +15,9 @@ import (
 func init() {
 	register(&Rule{Name: "C17.join-table", Min: 3, Run: c17JoinTable,
 		Doc: "the decision table of crdt.LastWriteWins, extracted over the finite order domain, is the documented join"})
-	register(&Rule{Name: "C17.local-update", Min: 2, Run: c17LocalUpdate,
+	register(&Rule{Name: "C17.local-update", Min: 1, Run: c17LocalUpdate,
 		Doc: "a local Set/Tombstone stores the join of the new and the existing entry"})
-	register(&Rule{Name: "C17.trace-cutoff", Min: 2, Run: c17TraceCutoff,
+	register(&Rule{Name: "C17.trace-cutoff", Min: 1, Run: c17TraceCutoff,
 		Doc: "TraceHistory bounds every deeper level by the time of the entry it just reported"})
 	register(&Rule{Name: "C17.diff-visible", Min: 2, Run: c17DiffVisible,
 		Doc: "Diff compares visible values (tombstones read as absent) and reports only unequal ones"})
@@ -144,9 +144,31 @@ func c17LocalUpdate(c *Ctx) {
 	name := core.FuncName(fn)
 	cvP := fn.Params[len(fn.Params)-1]
 	var joins []*ssa.Call
+	usc := c.Scope(fn)
 	for _, call := range an.Calls(fn) {
-		if cl, ok := call.(*ssa.Call); ok && cl.Call.StaticCallee() == lww {
+		cl, ok := call.(*ssa.Call)
+		if !ok {
+			continue
+		}
+		if cl.Call.StaticCallee() == lww {
 			joins = append(joins, cl)
+			continue
+		}
+		// a helper of update that performs the join on its own arguments
+		if cal := cl.Call.StaticCallee(); cal != nil && usc.Contains(cal) {
+			for _, ic := range an.Calls(cal) {
+				if icl, ok := ic.(*ssa.Call); ok && icl.Call.StaticCallee() == lww {
+					fromParams := 0
+					for _, a := range icl.Call.Args {
+						if an.DependsOn(a, func(v ssa.Value) bool { _, isP := v.(*ssa.Parameter); return isP }) {
+							fromParams++
+						}
+					}
+					if fromParams == len(icl.Call.Args) {
+						joins = append(joins, cl)
+					}
+				}
+			}
 		}
 	}
 	k := 0
@@ -169,6 +191,30 @@ func c17LocalUpdate(c *Ctx) {
 		contains := false
 		if g := guardOfBoolExtract(fn, call.Block(), "Get"); g != nil {
 			contains = *g
+		} else if ph, ok := an.Unwrap(val).(*ssa.Phi); ok {
+			// one Insert for both cases: classify the incoming values by the branch they come from
+			okAll := true
+			for i, e := range ph.Edges {
+				g := guardOfBoolExtract(fn, ph.Block().Preds[i], "Get")
+				eJoin := an.DependsOn(e, func(v ssa.Value) bool {
+					for _, j := range joins {
+						if v == ssa.Value(j) {
+							return true
+						}
+					}
+					return false
+				})
+				if g != nil && *g && !eJoin {
+					okAll = false
+				}
+				if g == nil && !eJoin && !an.DependsOn(e, func(v ssa.Value) bool { return v == ssa.Value(cvP) }) {
+					okAll = false
+				}
+			}
+			k++
+			c.R.Cond(okAll && len(joins) > 0, rule, fmt.Sprintf("%s: existing entry -> stores the join", name), c.P.Pos(call.Pos()),
+				"the value inserted on the 'entry exists' path is the join of new and existing", "with an existing entry the value stored is not the join of new and existing")
+			continue
 		}
 		if contains {
 			c.R.Cond(fromJoin, rule, fmt.Sprintf("%s: existing entry -> stores the join", name), c.P.Pos(call.Pos()),
@@ -182,7 +228,11 @@ func c17LocalUpdate(c *Ctx) {
 	}
 	// the join gets both the new and the existing value
 	for _, j := range joins {
-		a0 := an.DependsOn(j.Call.Args[0], func(v ssa.Value) bool { return v == ssa.Value(cvP) })
+		first := j.Call.Args[0]
+		if cal := j.Call.StaticCallee(); cal != nil && cal.Signature.Recv() != nil && len(j.Call.Args) > 1 {
+			first = j.Call.Args[1] // a helper method: skip its receiver
+		}
+		a0 := an.DependsOn(first, func(v ssa.Value) bool { return v == ssa.Value(cvP) })
 		c.R.Cond(a0, rule, name+": join(new, existing)", c.P.Pos(j.Pos()), "the new value is the first argument (ties go to the new value)", "the join is not called with the new value first")
 	}
 }
@@ -238,23 +288,26 @@ func c17TraceCutoff(c *Ctx) {
 		c.R.Unk(rule, name+": reported entry", c.P.Pos(fn.Pos()), "no Mast.Get call found")
 		return
 	}
+	sc := c.Scope(fn)
 	n := 0
-	for _, st := range an.StoresToField(fn, cutoffF) {
-		if k, ok := st.Val.(*ssa.Const); ok && k.Value != nil {
-			continue // the initial MaxInt64 of the starting point
-		}
-		n++
-		good := false
-		if fv := an.FieldOfLoad(st.Val); fv == modF {
-			// loaded from gv
-			if ld, ok := st.Val.(*ssa.UnOp); ok && ld.Op == token.MUL {
-				if fa, ok := ld.X.(*ssa.FieldAddr); ok && fa.X == gv {
-					good = true
+	for _, f := range sc.Funcs {
+		for _, st := range an.StoresToField(f, cutoffF) {
+			if k, ok := st.Val.(*ssa.Const); ok && k.Value != nil {
+				continue // the initial MaxInt64 of the starting point
+			}
+			n++
+			val := sc.ArgOfParam(st.Val) // a helper may receive the cutoff as a parameter
+			good := false
+			if fv := an.FieldOfLoad(val); fv == modF {
+				if ld, ok := val.(*ssa.UnOp); ok && ld.Op == token.MUL {
+					if fa, ok := ld.X.(*ssa.FieldAddr); ok && fa.X == gv {
+						good = true
+					}
 				}
 			}
+			c.R.Cond(good, rule, fmt.Sprintf("%s: deeper level #%d is bounded by the reported entry's time", name, n), c.P.Pos(st.Pos()),
+				"cutoff = gv.ModEpochNanos of the entry just reported", "a previous version is queued with a cutoff other than the time of the entry just reported (e.g. the inherited one): entries newer than an already reported one can be yielded, history is no longer strictly decreasing")
 		}
-		c.R.Cond(good, rule, fmt.Sprintf("%s: deeper level #%d is bounded by the reported entry's time", name, n), c.P.Pos(st.Pos()),
-			"cutoff = gv.ModEpochNanos of the entry just reported", "a previous version is queued with a cutoff other than the time of the entry just reported (e.g. the inherited one): entries newer than an already reported one can be yielded, history is no longer strictly decreasing")
 	}
 	if n == 0 {
 		c.R.Unk(rule, name+": deeper levels", c.P.Pos(fn.Pos()), "no non-constant cutoff assignment found")
@@ -270,9 +323,10 @@ func c17DiffVisible(c *Ctx) {
 	}
 	// the callback handed to DiffIter
 	var cb *ssa.Function
+	dsc := c.Scope(diff)
 	for _, f := range c.P.RepoFuncs(func(rel string) bool { return rel == "kv" }) {
-		if f.Parent() == diff {
-			cb = f
+		if f.Parent() != nil && dsc.Contains(f.Parent()) {
+			cb = f // the callback literal, in Diff itself or in a factory only Diff calls
 		}
 	}
 	if cb == nil {
